@@ -135,7 +135,10 @@ mod lz4 {
 		}
 
 		pub(super) fn compress(&self, buf: &[u8]) -> Vec<u8> {
-			lz4::block::compress(buf, Some(lz4::block::CompressionMode::DEFAULT), true).unwrap()
+			// The codec refuses an input above its size limit (0x7E000000 bytes). Such a value is
+			// handed back as it is: a result that is not shorter than the input is not kept.
+			lz4::block::compress(buf, Some(lz4::block::CompressionMode::DEFAULT), true)
+				.unwrap_or_else(|_| buf.to_vec())
 		}
 
 		pub(super) fn decompress(&self, buf: &[u8]) -> Result<Vec<u8>> {
